@@ -29,8 +29,10 @@ package auth
 //@ func auth.PermissionedProxy
 //@   safety
 //@   may_panic
-//@   loop 1 invariant field-index: f >= 0 [C19]
-//@   at call reflect.MakeFunc: assert wrapper-only-for-validated-tag: ok && requiredPerm != "" [C19]
+//@   loop 1 invariant every-field-so-far-wrapped: f >= 0 && calls(MakeFunc) == f [C19]
+//@   loop 2 invariant validated-means-listed: ok ==> 0 <= rangeindex && rangeindex < len(validPerms) && validPerms[rangeindex] == requiredPerm [C19]
+//@   at call reflect.MakeFunc: assert wrapper-only-for-a-listed-tag: 0 <= rangeindex && rangeindex < len(validPerms) && validPerms[rangeindex] == requiredPerm && requiredPerm != "" [C19]
+//@   ensures every-method-gets-a-checking-wrapper: calls(MakeFunc) == rNumField(rtypeOf(rint)) [C19]
 
 //@ func auth.PermissionedProxy$1
 //@   safety
